@@ -64,6 +64,7 @@ type WorldOpts struct {
 	CallbackURI  string
 	AppHost      string
 	ViaServer    bool // go through server.ExtAuthZFilter.Check (real clock, real generator)
+	RealFactory  bool // with ViaServer: stores come from oidc.NewSessionStoreFactory(cfg).PreRun(), as in cmd/main.go
 	TriggerRules []*configv1.TriggerRule
 	AuthURI      string // override (e.g. with its own query)
 	// CfgHook may replace the filter configuration (e.g. after passing it through the real loader).
@@ -83,6 +84,8 @@ type World struct {
 	TLS     internal.TLSConfigPool
 	Gen     oidc.SessionGenerator
 	Filter  *server.ExtAuthZFilter
+	Factory oidc.SessionStoreFactory
+	Full    *configv1.Config
 	cancel  context.CancelFunc
 	AppHost string
 	Scheme  string
@@ -173,7 +176,9 @@ func NewWorld(c *Case, o WorldOpts) *World {
 	w.Cfg = cfg
 
 	var inner oidc.SessionStore
-	if o.ViaServer {
+	if o.ViaServer && o.RealFactory {
+		inner = nil
+	} else if o.ViaServer {
 		// real clock: stores on the real clock too
 		if o.Store == "redis" {
 			_, cl := Redis()
@@ -199,6 +204,7 @@ func NewWorld(c *Case, o WorldOpts) *World {
 		Chains:       []*configv1.FilterChain{{Name: "oidc", Filters: []*configv1.Filter{{Type: &configv1.Filter_Oidc{Oidc: cfg}}}}},
 		TriggerRules: o.TriggerRules,
 	}
+	w.Full = full
 	prov := oidc.NewJWKSProvider(full, w.TLS)
 	if o.Discovery {
 		// discovery switches the filter to the JWKS fetcher, which needs the provider's service loop
@@ -207,7 +213,18 @@ func NewWorld(c *Case, o WorldOpts) *World {
 	w.JWKS = &SpyJWKS{Inner: prov}
 	w.JWKS.Intercept = func() string { return w.intercept("jwks", "Get", "") }
 	w.Gen = oidc.NewRandomGenerator()
-	if o.ViaServer {
+	if o.ViaServer && o.RealFactory {
+		if o.Store == "redis" {
+			mr, _ := Redis()
+			cfg.RedisSessionStoreConfig.ServerUri = "redis://" + mr.Addr()
+		}
+		fac := oidc.NewSessionStoreFactory(full)
+		if err := fac.PreRun(); err != nil {
+			panic(err)
+		}
+		w.Factory = fac
+		w.Filter = server.NewExtAuthZFilter(full, w.TLS, w.JWKS, fac)
+	} else if o.ViaServer {
 		w.Filter = server.NewExtAuthZFilter(full, w.TLS, w.JWKS, FixedFactory{w.Store})
 	}
 	return w
